@@ -237,10 +237,11 @@ inline bool run_world(World &W, Proto &P, uint64_t seed)
 	sched::Sched S(n);
 	S.horizon = 50000;
 	uint64_t pick_state = seed * 0x9e3779b97f4a7c15ULL + 12345;
+	// the candidate list of Sched::next_after ends with the yielding party itself: never choose that one
 	if (W.cfg.sched == 1)
-		S.pick = [](int, const std::vector<int> &c) -> size_t { return c.size() - 1; };
+		S.pick = [](int, const std::vector<int> &c) -> size_t { return c.size() >= 2 ? c.size() - 2 : 0; };
 	else if (W.cfg.sched == 2)
-		S.pick = [&pick_state](int, const std::vector<int> &c) -> size_t { return (size_t)(mcenv::splitmix(pick_state) % c.size()); };
+		S.pick = [&pick_state](int, const std::vector<int> &c) -> size_t { return c.size() >= 2 ? (size_t)(mcenv::splitmix(pick_state) % (c.size() - 1)) : 0; };
 	sched::Net ucast(n), bcast(n);
 	const int NPH = P.phases();
 	for (int i = 0; i < n; i++) W.ps[i].ret.assign(NPH, -1);
@@ -250,6 +251,7 @@ inline bool run_world(World &W, Proto &P, uint64_t seed)
 		int ev = ps.events++;
 		int idx = ps.ucount[to]++;
 		ps.evkind += 'u';
+		if (getenv("C15_TRACE")) fprintf(stderr, "t=%ld ucast %d->%d #%d\n", (long)(mcenv::vclock - 1700000000), from, to, idx);
 		if (!ps.faulty) return true;
 		const Dev &d = ps.dev;
 		switch (d.kind)
@@ -286,6 +288,7 @@ inline bool run_world(World &W, Proto &P, uint64_t seed)
 			ps.cur_batch = ps.bcasts++;
 			int ev = ps.events++;
 			ps.evkind += 'b';
+			if (getenv("C15_TRACE")) fprintf(stderr, "t=%ld bcast %d #%d payload %s\n", (long)(mcenv::vclock - 1700000000), from, ps.cur_batch, m.v[4].substr(0, 12).c_str());
 			if (ps.faulty && d.kind == 'C' && ev >= d.a) { ps.fired = true; throw Crash(); }
 		}
 		if (!ps.faulty) return true;
@@ -456,6 +459,8 @@ struct JView {
 	int party;
 	bool ret;
 	std::vector<size_t> qual;              // the set the share is summed over / the commitments are multiplied over
+	bool has_fqual;
+	std::vector<size_t> fqual;             // the final set of qualified parties, if the class keeps a second one (CGJKR DKG)
 	Mpz x, xp;
 	std::vector<std::vector<Mpz> > C;      // [dealer][k]
 	bool has_y;
@@ -463,7 +468,7 @@ struct JView {
 	std::vector<Mpz> vkeys;                // Feldman verification keys g^{x_j} (GJKR), empty otherwise
 	bool has_z;
 	Mpz z;                                 // own contribution f_i(0), if the class keeps it
-	JView() : party(-1), ret(false), has_y(false), has_z(false) {}
+	JView() : party(-1), ret(false), has_fqual(false), has_y(false), has_z(false) {}
 };
 
 struct JResult { bool have_x; Mpz x, xp; JResult() : have_x(false) {} };
@@ -489,10 +494,13 @@ inline JResult judge_joint(World &W, const std::string &tag, std::vector<JView> 
 		// an honest party that failed: consistent only if the successful ones agree that it is not qualified
 		bool in_some = false;
 		for (size_t b = 0; b < views.size(); b++)
-			if (std::find(views[b].qual.begin(), views[b].qual.end(), (size_t)all_views[a].party) != views[b].qual.end()) in_some = true;
+		{
+			const std::vector<size_t> &fq = views[b].has_fqual ? views[b].fqual : views[b].qual;
+			if (std::find(fq.begin(), fq.end(), (size_t)all_views[a].party) != fq.end()) in_some = true;
+		}
 		if (in_some)
 		{
-			W.viol(tag + "/honest-outcomes-differ", "honest party " + drv::str(all_views[a].party) + " ended with failure while honest party " + drv::str(views[0].party) + " succeeded with QUAL " + set_str(views[0].qual) + " that contains it");
+			W.viol(tag + "/honest-outcomes-differ", "honest party " + drv::str(all_views[a].party) + " ended with failure while honest party " + drv::str(views[0].party) + " succeeded with QUAL " + set_str(views[0].has_fqual ? views[0].fqual : views[0].qual) + " that contains it");
 			structural_ok = false;
 		}
 		else
